@@ -10,10 +10,10 @@ open HtmlVerif HtmlVerif.Wire
 
 def escHolds (attr : Bool) (s out : Str) : Bool :=
   if attr then
-    out == s.flatMap escAttrChar && decodeRefs out == s && ampsOk attrRefs out
+    out == s.flatMap escAttrChar && decodeCharRefs out == s && ampsOk attrRefs out
       && !(out.any fun c => c == '<' || c == '>' || c == '"' || c == '\'' || c == '\r' || c == '\n')
   else
-    out == s.flatMap escTextChar && decodeRefs out == s && ampsOk textRefs out
+    out == s.flatMap escTextChar && decodeCharRefs out == s && ampsOk textRefs out
       && !(out.any fun c => c == '<' || c == '>')
 
 def holdsC02 : OpTable
